@@ -18,6 +18,17 @@ Z3_TIMEOUT_MS = int(os.environ.get('VERIF_Z3_TIMEOUT_MS', '10000'))
 FEAS_TIMEOUT_MS = 1500
 
 
+def load_scale():
+    """Solver budgets are wall-clock: when the machine is oversubscribed (several checks at once on the 16 cores) they are stretched
+    so that verdicts do not flip to `unknown` for lack of CPU.  1 on an idle machine, at most 6."""
+    try:
+        la = os.getloadavg()[0]
+        n = os.cpu_count() or 16
+    except OSError:
+        return 1.0
+    return min(6.0, max(1.0, 1.5 * la / n))
+
+
 class Unsupported(Exception):
     """The code left the supported subset (=> obligation UNDECIDED, never a violation)."""
 
@@ -118,7 +129,7 @@ class Ctx:
     # -- branching ----------------------------------------------------------------------------
     def feasible(self, extra=None):
         s = z3.Solver()
-        s.set('timeout', FEAS_TIMEOUT_MS)
+        s.set('timeout', int(FEAS_TIMEOUT_MS * load_scale()))
         for h in self.hyps:
             s.add(h)
         if extra is not None:
@@ -309,7 +320,8 @@ def run_cli(cmd, smt2, timeout_s):
 def discharge(ob, timeout_ms=None, want_model=True, second_solver=False):
     """Discharge one obligation: z3 API first, CLI solvers (cvc5, z3 4.8) on unknown."""
     t0 = time.time()
-    timeout_ms = timeout_ms or Z3_TIMEOUT_MS
+    ls = load_scale()
+    timeout_ms = int((timeout_ms or Z3_TIMEOUT_MS) * ls)
     tried_cvc5 = False
     if want_model and _nonlinear_goal(ob.goal):
         # nonlinear real/integer goals: cvc5 decides these in about a second where z3 tends to run into its time limit;
@@ -319,13 +331,13 @@ def discharge(ob, timeout_ms=None, want_model=True, second_solver=False):
         except z3.Z3Exception:
             skg = ob.goal
         s1 = z3.Solver()
-        s1.set('timeout', 2000)
+        s1.set('timeout', int(2000 * ls))
         for h in ob.hyps:
             s1.add(h)
         s1.add(z3.Not(skg))
         if s1.check() == z3.unsat:
             return Verdict(ob.name, 'discharged', time.time() - t0, 'z3-5.1(api)')
-        rr = run_cli(['/usr/bin/cvc5', '--tlimit=5000'], _smt2(ob.hyps, skg), 8)
+        rr = run_cli(['/usr/bin/cvc5', '--tlimit=%d' % int(5000 * ls)], _smt2(ob.hyps, skg), 8 * ls)
         tried_cvc5 = True
         if rr == 'unsat':
             return Verdict(ob.name, 'discharged', time.time() - t0, 'cvc5-1.0.3')
@@ -334,7 +346,7 @@ def discharge(ob, timeout_ms=None, want_model=True, second_solver=False):
         # portfolio: a short plain attempt, then the goal Skolemised by us with instances of the registered axioms at its
         # Skolem terms, then (below) the plain query with the full budget
         s0 = z3.Solver()
-        s0.set('timeout', 1500)
+        s0.set('timeout', int(1500 * ls))
         s0.set('random_seed', 0)
         for h in ob.hyps:
             s0.add(h)
@@ -349,7 +361,7 @@ def discharge(ob, timeout_ms=None, want_model=True, second_solver=False):
             inst = goal_directed_instances(ob, consts)
             if inst:
                 s2 = z3.Solver()
-                s2.set('timeout', min(timeout_ms, 8000))
+                s2.set('timeout', min(timeout_ms, int(8000 * ls)))
                 s2.set('random_seed', 0)
                 for h in ob.hyps:
                     s2.add(h)
@@ -422,6 +434,7 @@ def _nonlinear_goal(e, _depth=0):
 
 
 def check_sat(hyps, timeout_ms=5000):
+    timeout_ms = int(timeout_ms * load_scale())
     s = z3.Solver()
     s.set('timeout', timeout_ms)
     for h in hyps:
